@@ -102,9 +102,38 @@ def make_near_tie_case(rng, i):
     return {"m": m, "cfg": cfg, "rep": rep, "pert": pert}
 
 
+def make_pre_instance(rng, m):
+    """Reuse family: an MDP A over the same state / action labels as m (same N, K, PD, gamma) but with its own
+    absorbing set and state-dependent action sets, on which the SAME learner object is trained first."""
+    N = m["N"]
+    for _ in range(50):
+        n_abs = rng.choice([1, 1, 2]) if N > 2 else 1
+        a = gen.rand_mdp(rng, n_na=N - n_abs, n_abs=n_abs, K=m["K"], PD=m["PD"], GN=m["GN"], GD=m["GD"],
+                         rewards=(-2, -1, 0, 1, 2), ID=m["ID"], force_progress=True, init_on_abs=0.2)
+        if a["abs"] != m["abs"] or a["avail"] != m["avail"]:
+            return a
+    return None
+
+
 def make_case(rng, i):
     if i % 5 == 4:
         return make_near_tie_case(rng, i)
+    c = make_regular_case(rng, i, force_soft=(i % 14 == 5))
+    if i % 7 == 5:
+        # scaled family: every real magnitude (rewards, initial values, softmax temperature) is the model's times
+        # 10^scale_exp; the update rule is homogeneous, so the model is unchanged and observations are divided by it
+        c["scale_exp"] = rng.choice([-7, -7, -3, 6])
+        c["cfg"]["intq"] = False
+    elif i % 7 == 2:
+        pre = make_pre_instance(rng, c["m"])
+        if pre is not None:
+            c["pre"] = pre
+            if c["rep"]["rep"] == "matrices" and not (gen.ghost_closed(pre) and gen.ghost_closed(c["m"])):
+                c["rep"]["explicit_list"] = True
+    return c
+
+
+def make_regular_case(rng, i, force_soft=False):
     f = FAMS[i % len(FAMS)]
     n_na = rng.choice([1, 2, 2, 3, 3, 4])
     n_abs = rng.choice([1, 1, 2])
@@ -119,10 +148,12 @@ def make_case(rng, i):
                temp=rng.choice(TEMPS), q0kind=kind, q0=q0, episodes=rng.randint(1, 5),
                seed=(None if rng.random() < 0.08 else rng.randrange(10 ** 6)), gseed=rng.randrange(10 ** 6),
                intq=rng.random() < 0.5)
-    if cfg["alg"] == "ESARSA" and rng.random() < 0.45:
+    if force_soft:
+        cfg["alg"] = "ESARSA"
+    if cfg["alg"] == "ESARSA" and (force_soft or rng.random() < 0.45):
         # softmax configuration of expected SARSA: small temperatures x large exploration rates x rows with
         # distinct values (state-action dependent initial values, step size > 0)
-        cfg["temp"] = rng.choice(SOFT_TEMPS)
+        cfg["temp"] = rng.choice(SOFT_TEMPS[2:] if force_soft else SOFT_TEMPS)
         cfg["EN"], cfg["ED"] = rng.choice(SOFT_EPSS)
         if rng.random() < 0.7:
             cfg["q0kind"], cfg["q0"] = "table", [[rng.randint(-8, 8) for _ in range(K)] for _ in range(m["N"])]
@@ -188,6 +219,22 @@ def run_real(case, max_steps=MAXSTEPS):
         def reward(s, a, ns):
             return base_reward(s, a, ns) + pert[b.slabel.index(s)][b.alabel.index(a)][b.slabel.index(ns)] * PERT
         b.mdp.reward = reward
+    sigma = 10.0 ** case["scale_exp"] if case.get("scale_exp") else 1.0
+    if sigma != 1.0:
+        base_reward_s = b.mdp.reward
+        b.mdp.reward = lambda s, a, ns: base_reward_s(s, a, ns) * sigma
+
+    def qz(x):
+        """real magnitude -> model units (scaled family: divided by the scale factor first)"""
+        try:
+            return quant(x if sigma == 1.0 else float(x) / sigma)
+        except (TypeError, ValueError):
+            return CLAMP
+    pre = None
+    if case.get("pre"):
+        # same labels (same label rng), other absorbing set / action sets; rewards scaled alike
+        pre = build.build_mdp(case["pre"], rng=random.Random(digest(case["m"])), **rep)
+        assert pre.slabel == b.slabel and pre.alabel == b.alabel
 
     def sidx(lab):
         try:
@@ -205,11 +252,11 @@ def run_real(case, max_steps=MAXSTEPS):
     consts = {x for row in q0 for x in row}
     if cfg["q0kind"] == "const" and len(consts) == 1:
         v = next(iter(consts))
-        initial_q = (v // 4) if (cfg["intq"] and v % 4 == 0) else v / 4
+        initial_q = (v // 4) if (cfg["intq"] and v % 4 == 0 and sigma == 1.0) else v / 4 * sigma
     else:
         def initial_q(s, a):
             try:
-                return q0[b.slabel.index(s)][b.alabel.index(a)] / 4
+                return q0[b.slabel.index(s)][b.alabel.index(a)] / 4 * sigma
             except ValueError:
                 raise _BadCall(f"initial_q called with ({s!r}, {a!r})") from None
     events = []
@@ -228,7 +275,7 @@ def run_real(case, max_steps=MAXSTEPS):
         if row is None or not all(aidx(a) for a in row):
             return 0, wh, wl
         mx = max(row.values())
-        ex = {a: math.exp((v - mx) / cfg["temp"]) for a, v in row.items()}
+        ex = {a: math.exp((v - mx) / (cfg["temp"] * sigma)) for a, v in row.items()}
         z = sum(ex.values())
         for a, x in ex.items():
             v = round(x / z * WU)
@@ -242,7 +289,7 @@ def run_real(case, max_steps=MAXSTEPS):
             row = table.defaultvalue(s)   # what q[s] would return; nothing is stored
         if row is None or a not in row:
             return 0, 0
-        return quant(row[a]), 1
+        return qz(row[a]), 1
 
     class Recorder(td.TDLearningEventListener):
         def __init__(self):
@@ -266,7 +313,7 @@ def run_real(case, max_steps=MAXSTEPS):
                 (q, h1), (q2, h2) = entry(lv["q1"], s, a), entry(lv["q2"], s, a)
             else:
                 (q, h1), (q2, h2) = entry(lv["q"], s, a), (0, 0)
-            events.append({"k": "step", "s": sidx(s), "a": aidx(a), "r": quant(lv["r"]), "ns": sidx(ns),
+            events.append({"k": "step", "s": sidx(s), "a": aidx(a), "r": qz(lv["r"]), "ns": sidx(ns),
                            "na": aidx(lv["na"]) if alg == "SARSA" else 0, "q": q, "q2": q2, "h1": h1, "h2": h2})
             if soft:
                 hw, wh, wl = soft_weights(lv["q"], ns)
@@ -293,15 +340,31 @@ def run_real(case, max_steps=MAXSTEPS):
     if cfg["seed"] is None:
         random.seed(cfg["gseed"])
     learner = Learner(episodes=cfg["episodes"], step_size=cfg["AN"] / cfg["AD"], rand_choose=cfg["EN"] / cfg["ED"],
-                      softmax_temp=cfg["temp"], initial_q=initial_q, seed=cfg["seed"],
-                      event_listener_class=Recorder)
+                      softmax_temp=cfg["temp"] * sigma if sigma != 1.0 else cfg["temp"], initial_q=initial_q,
+                      seed=cfg["seed"], event_listener_class=Recorder)
     rec = {k: m[k] for k in INST_KEYS}
     rec.update(alg=alg, AN=cfg["AN"], AD=cfg["AD"], EN=cfg["EN"], ED=cfg["ED"], temp0=1 if cfg["temp"] == 0 else 0,
                q0=q0, episodes=cfg["episodes"], seedbug=0, depth=0)
     zero = [[0] * K for _ in range(N)]
     rec.update(ev=events, truncated=0, rhas=[0] * N, rhasa=[list(r) for r in zero], rval=[list(r) for r in zero],
                rank=[list(r) for r in zero], pol=[list(r) for r in zero], polq=[0] * N, extra_rows=0,
-               subres=0, pert=1 if case.get("pert") else 0)
+               subres=0, pert=1 if case.get("pert") else 0, scale_exp=case.get("scale_exp", 0),
+               call=2 if pre is not None else 1)
+    if pre is not None:
+        # reuse family: the SAME learner object is first trained on MDP A; only the second call is judged here
+        # (first calls are what every other run is)
+        if sigma != 1.0:
+            base_reward_p = pre.mdp.reward
+            pre.mdp.reward = lambda s, a, ns: base_reward_p(s, a, ns) * sigma
+        try:
+            learner.train_on(pre.mdp)
+        except _Stop:
+            if "recorder_error" in st:
+                raise RuntimeError("C10 recorder could not read the listener's local variables: " + st["recorder_error"])
+        except Exception as e:                              # noqa: BLE001
+            return {"error": f"{type(e).__name__}: {e}"[:300], "call": 1}
+        del events[:]
+        st.update(new=True, steps=0, snap={})
     try:
         res = learner.train_on(b.mdp)
     except _Stop:
@@ -310,7 +373,7 @@ def run_real(case, max_steps=MAXSTEPS):
         rec["truncated"] = 1
         return rec
     except Exception as e:                                  # noqa: BLE001 - reported as a clause failure
-        return {"error": f"{type(e).__name__}: {e}"[:300]}
+        return {"error": f"{type(e).__name__}: {e}"[:300], "call": 2 if pre is not None else 1}
     # ---- returned table, read BEFORE the policy is queried (querying materialises rows of the lazy table)
     for s_lab, row in list(dict.items(res.q_values)):
         s = sidx(s_lab)
@@ -325,12 +388,12 @@ def run_real(case, max_steps=MAXSTEPS):
                 rec["extra_rows"] += 1
                 continue
             rec["rhasa"][s - 1][a - 1] = 1
-            rec["rval"][s - 1][a - 1] = quant(v)
+            rec["rval"][s - 1][a - 1] = qz(v)
             vals[a] = float(v)
         order = sorted(set(vals.values()))              # dense ranks by exact float comparison (the code uses ==)
         for a, v in vals.items():
             rec["rank"][s - 1][a - 1] = order.index(v) + 1
-        if len(order) > len({quant(v) for v in order}):
+        if len(order) > len({qz(v) for v in order}):
             rec["subres"] += 1                          # distinct floats that coincide at the resolution 1/65536
     # ---- returned policy
     listed = gen.reach(m)
@@ -430,8 +493,9 @@ def judge(ctx, cases, recs):
     batch, owner = [], []
     for i, (c, r) in enumerate(zip(cases, recs)):
         if "error" in r:
-            ctx.violation(f"C10:{ALG_CLASS[c['cfg']['alg']]}.train_on:raised-{r['error'].split(':')[0]}",
-                          f"training raised {r['error']}", {"case": c})
+            shape = "/call-on-reused-learner" if c.get("pre") else ""
+            ctx.violation(f"C10:{ALG_CLASS[c['cfg']['alg']]}.train_on:raised-{r['error'].split(':')[0]}{shape}",
+                          f"training (call {r.get('call', 1)} of the learner object) raised {r['error']}", {"case": c})
             continue
         batch.append(r)
         owner.append(i)
@@ -478,7 +542,11 @@ def judge(ctx, cases, recs):
             elif f["c"].startswith("policy-"):
                 what = (f"{ALG_CLASS[alg]}: {f['c']} at state {f['s'] - 1}: policy support has {f['got']} actions, "
                         f"statement requires {f['exp']}")
-            ctx.violation(signature(alg, f["c"]), what, {"case": c, "clause": f["c"], "tlc": f})
+            sig = signature(alg, f["c"])
+            if rec.get("call") == 2:
+                sig += "/second-call-of-reused-learner"
+                what += " [second train_on call of one learner object, first call on an MDP with the same labels]"
+            ctx.violation(sig, what, {"case": c, "clause": f["c"], "tlc": f})
         for fl in sorted(v["flags"]):
             ctx.drift(fl, {"alg": alg, "case": digest(c)})
         if rec.get("extra_rows"):
@@ -491,6 +559,12 @@ def judge(ctx, cases, recs):
         ctx.count(f"runs_{alg}")
         if rec.get("pert"):
             ctx.count("near_tie_family_runs")
+        if rec.get("call") == 2:
+            ctx.count("reused_learner_second_calls")
+        if rec.get("scale_exp"):
+            ctx.count("scaled_family_runs")
+            if loose and rec["scale_exp"] == -7:
+                ctx.count("softmax_runs_with_temperature_below_1e-6")
         ctx.count("returned_rows_with_gap_below_resolution", rec.get("subres", 0))
         ctx.count("events", len(rec["ev"]))
         if any(e["k"] == "start" and rec["abs"][e["s"] - 1] for e in rec["ev"] if e["s"] > 0):
@@ -582,7 +656,9 @@ def run(ctx):
                 "{0,.5,2; expected SARSA also .02,.05,.2} x initial_q {int, float, callable table, callable by action} x episodes 1-5 x seed (incl. None) "
                 "x 7 representations; every 5th run from the near-tie family (model rewards all equal, real rewards R + d*2^-40, step "
                 "size 1 or 1/2, rand_choose 1/2 or 1, 4-8 episodes) whose returned rows hold distinct floats closer than 1e-9 "
-                "relative: the policy clause is decided on exact float ranks; non-trivial = accepted trace with >= 3 updates, step size > 0, at least one "
+                "relative: the policy clause is decided on exact float ranks; every 7th run scaled by 1e-7 / 1e-3 / 1e6 "
+                "(half of them expected SARSA with softmax temperature, real temperatures down to 5e-9); every 7th run is the "
+                "second train_on call of a learner object first trained on another MDP over the same labels; non-trivial = accepted trace with >= 3 updates, step size > 0, at least one "
                 "bootstrap from a non-absorbing next state")
     ctx.assumptions = [
         "the event listener's locals() and the returned q_values/policy are what the learner computed with",
@@ -596,6 +672,13 @@ def run(ctx):
         "near-tie family: the model folds the unperturbed integer reward; the real fold differs by at most n*2^-40 "
         "(= n*2^-24 units, < 1e-5 units for n <= 120) after n updates, absorbed by the 1/2 unit of slack every tolerance "
         "has over its derived need; policy supports are compared with exact float ranks, no tolerance",
+        "scaled family (scale_exp): rewards, initial values and softmax temperature handed to msdm are the model's times "
+        "10^scale_exp (1e-7, 1e-3, 1e6); the TD rule is positively homogeneous and softmax(Q/tau) is scale invariant, so "
+        "the model is unchanged and every observed value is divided by the factor before quantisation (float error 1e-16 "
+        "relative, far below the 1/2 unit of slack)",
+        "reuse family (call = 2): one learner object is trained on MDP A and then on MDP B (same labels, other absorbing "
+        "set / action sets); the second call is judged against B exactly like a first call - the statement has no "
+        "freshness precondition on the learner",
         "boundedness interval includes 0 (the fixed value of absorbing states); undiscounted: after n updates "
         "[min q0 + n min(r,0), max q0 + n max(r,0)]",
     ]
@@ -617,7 +700,7 @@ def run(ctx):
     for k in range(0, len(cases), chunk):
         part = cases[k:k + chunk]
         recs = [safe_run(c) for c in part]
-        ctx.evaluations += len(part)
+        ctx.evaluations += len(part) + sum(1 for c in part if c.get("pre"))     # reuse family: two trainings
         judge(ctx, part, recs)
 
 
